@@ -98,6 +98,12 @@ def _run_round(desc):
                 else:
                     spf = sf.from_data_cut(d2, cut)
                 _check_frame(sh, "from_data_cut[%s]" % cutname, dict(case, cut=cut), spf, want, d2, cI)
+                # a NaN pixel (dead pixel after flat-field division) is not above any cut
+                if dt == np.float32 and want.sum() >= 2 and x % 3 == 0:
+                    d3 = d2.copy()
+                    d3[tuple(np.argwhere(want)[0])] = np.nan
+                    w3 = d3 > cut
+                    _check_frame(sh, "from_data_cut[NaN pixel]", dict(case, cut=cut), sf.from_data_cut(d3, cut), w3, np.where(w3, d3, 0).astype(np.float32), cI)
                 # detector mask: only pixels allowed by msk may survive
                 if dt != np.uint32:
                     dm = np.ones(shp, bool)
